@@ -235,6 +235,27 @@ def run_shard(cfg, prop):
             one_generation(acc, prop, m, seed, forced, fr)
         drive(branchy(), hb, max(1, per["random"] // 3), cfg["seed"] + 5)
 
+    # larger tokens with aromatic ring motifs (benzene, pyridine, thiophene, furan, pyrimidine, N-substituted imidazole): the small
+    # tokens above never have room for them
+    if prop in ("C04", "C05"):
+        @st.composite
+        def ringy(draw):
+            m = draw(molecules(avoid=AVOID, max_blocks=2, max_atoms=draw(st.sampled_from([7, 8, 9])), small=True, chem="ff"))
+            fr = [(draw(st.integers(0, 3)), draw(st.sampled_from([0.5, 0.25, -0.5])), draw(st.integers(0, 3)), 1) for _ in range(3)]
+            return m, draw(st.integers(0, 2**31 - 1)), True, fr
+
+        def hr(x):
+            m, seed, forced, fr = x
+            if time.time() > t_end - 0.3 * SOFT_DEADLINE[cfg["tier"]]:
+                return
+            ok, why = reflaw.well_posed(m)
+            if not ok:
+                return
+            if any("ring" in t.flags for t in m.tokens):
+                acc.label("aromatic_or_ring_token")
+            one_generation(acc, prop, m, seed, forced, fr)
+        drive(ringy(), hr, max(1, per["random"] // 4), cfg["seed"] + 9)
+
     # bounded instances: every sequence of random choices
     def g(x):
         m, seed, _, fr = x
